@@ -1012,11 +1012,11 @@ func init() {
 	register(&property{
 		Meta: propertyMeta{
 			ID:          "C15",
-			Explanation: "Only the second sentence of the property (the BuildURL->Match round trip is not decidable in this family): (C15-INDEX) every API that names a route maintains the name index with last-writer-wins: stores to Route.name occur only in constructors (the route is indexed by appendRoute when registered) or paired on the same path with namedRoutes[sameName] = sameRoute (NamedTo); appendRoute writes namedRoutes[route.name] = route on every path with a non-empty name, before any return; the index is written nowhere else and never deleted from; GetRoute is a plain lookup and BuildURL resolves through it; ToURL builds from the route's own registered pattern.",
-			NotDecided:  []string{"everything about BuildRequestURL.Build/ToURL: placeholder substitution, escaping, query parameters", "that Match on the built path returns the same route and values (value-level string round trip through net/url)"},
+			Explanation: "Only the second sentence of the property (the BuildURL->Match round trip is not decidable in this family): (C15-INDEX) every API that names a route maintains the name index with last-writer-wins: stores to Route.name occur only in constructors (the route is indexed by appendRoute when registered) or paired on the same path with namedRoutes[sameName] = sameRoute (NamedTo); appendRoute writes namedRoutes[route.name] = route on every path with a non-empty name, before any return; the index is written nowhere else and never deleted from; GetRoute is a plain lookup and BuildURL resolves through it; ToURL builds from the route's own registered pattern. (C15-MEMO) ToURL re-uses a caller-supplied builder through Path(route.path).Build(...): the builder type holds no state derived from its own settings that can go stale — every store into a field of an existing BuildRequestURL whose value depends on a load of another field (placeholders parsed from the path, ...) is either recomputed/invalidated in every function that assigns that other field, or is a keyed memo whose key is re-validated on every path to every use; a virtual type with a stale memo is analysed on every run and must be reported.",
+			NotDecided:  []string{"the substitution itself in BuildRequestURL.Build: placeholder grammar, escaping, query parameters", "that Match on the built path returns the same route and values (value-level string round trip through net/url)"},
 			Assumptions: []string{"Go map assignment overwrites (last writer wins)"},
 		},
-		Rules: []ruleFn{{"C15-INDEX", ruleC15Index}},
+		Rules: []ruleFn{{"C15-INDEX", ruleC15Index}, {"C15-MEMO", ruleC15Memo}},
 	})
 	register(&property{
 		Meta: propertyMeta{
@@ -1037,3 +1037,312 @@ func init() {
 		Rules: []ruleFn{{"C17-TAINT", ruleC17Taint}, {"C17-ROOT", ruleC17Root}},
 	})
 }
+
+// ---------------------------------------------------------------------------
+// C15-MEMO — the URL builder keeps no state derived from its own settings that
+// can go stale.
+//
+// Route.ToURL re-uses a caller-supplied *BuildRequestURL: it calls
+// builder.Path(route.path).Build(...). The URL built for the named route is
+// therefore a function of the builder's *current* settings only if every field
+// whose value was computed from another field (a memo: placeholders parsed from
+// the path, a pre-encoded query ...) is recomputed or invalidated whenever that
+// other field is assigned. Rule, for the builder type T:
+//
+//	for every store (field store or map update) into field F of a T whose value
+//	depends on a load of another field G of the same T (derived state),
+//	  (a) every function that assigns G of an existing T also assigns F on that
+//	      path (recompute / invalidate), or
+//	  (b) F is a keyed memo: the function that fills F also records the G it was
+//	      computed from in a field K, and on every path to every load of F
+//	      either F was filled on that path or the decision K == G was taken.
+//
+// Objects under construction (stores into a fresh allocation) are exempt: they
+// have no earlier state. The rule is applied to BuildRequestURL and, on every
+// run, to a tiny virtual type with a stale memo that must be reported
+// (zero-expected-report rule needs a positive example).
+
+type derivedStore struct {
+	f    *ssa.Function
+	in   ssa.Instruction
+	F, G *types.Var
+	base string
+}
+
+// fieldDeps: the fields of struct type T (accessed through a base with canonical form base)
+// whose loads the value depends on (operands, call arguments; callee bodies are not entered).
+func fieldDeps(v ssa.Value, T *types.Named, base string) map[*types.Var]bool {
+	out := map[*types.Var]bool{}
+	seen := map[ssa.Value]bool{}
+	var rec func(v ssa.Value, depth int)
+	rec = func(v ssa.Value, depth int) {
+		if v == nil || seen[v] || depth > 60 {
+			return
+		}
+		seen[v] = true
+		if ld, ok := v.(*ssa.UnOp); ok && ld.Op == token.MUL {
+			if fa, ok := ld.X.(*ssa.FieldAddr); ok && isNamedPtr(fa.X.Type(), T) && canon(fa.X) == base {
+				out[fieldVar(fa.X.Type(), fa.Field)] = true
+			}
+		}
+		if al, ok := v.(*ssa.Alloc); ok {
+			// a local cell or array literal: what was stored into it (directly or element-wise)
+			var stored func(addr ssa.Value)
+			stored = func(addr ssa.Value) {
+				for _, ref := range *addr.Referrers() {
+					switch x := ref.(type) {
+					case *ssa.Store:
+						if x.Addr == addr {
+							rec(x.Val, depth+1)
+						}
+					case *ssa.IndexAddr:
+						if x.X == addr {
+							stored(x)
+						}
+					case *ssa.FieldAddr:
+						if x.X == addr {
+							stored(x)
+						}
+					}
+				}
+			}
+			stored(al)
+		}
+		if in, ok := v.(ssa.Instruction); ok {
+			for _, op := range in.Operands(nil) {
+				if op != nil && *op != nil {
+					rec(*op, depth+1)
+				}
+			}
+		}
+	}
+	rec(v, 0)
+	return out
+}
+
+func ruleC15Memo(r *Run) {
+	w := r.W
+	rule := "C15-MEMO"
+	r.Floor(rule, 3)
+	check := func(T *types.Named, label string, fixture bool) (violations int) {
+		// stores into fields of an existing T
+		type fstore struct {
+			f    *ssa.Function
+			in   ssa.Instruction
+			F    *types.Var
+			base string
+			val  []ssa.Value
+		}
+		var stores []fstore
+		for _, f := range w.Funcs {
+			eachInstr(f, func(in ssa.Instruction) {
+				switch x := in.(type) {
+				case *ssa.Store:
+					for _, lf := range valueLeaves(x.Addr) {
+						fa, ok := lf.(*ssa.FieldAddr)
+						if !ok || !isNamedPtr(fa.X.Type(), T) {
+							continue
+						}
+						if al, isAl := fa.X.(*ssa.Alloc); isAl && al.Heap {
+							continue // under construction
+						}
+						stores = append(stores, fstore{f, in, fieldVar(fa.X.Type(), fa.Field), canon(fa.X), []ssa.Value{x.Val}})
+					}
+				case *ssa.MapUpdate:
+					if ld, ok := x.Map.(*ssa.UnOp); ok && ld.Op == token.MUL {
+						if fa, ok := ld.X.(*ssa.FieldAddr); ok && isNamedPtr(fa.X.Type(), T) {
+							stores = append(stores, fstore{f, in, fieldVar(fa.X.Type(), fa.Field), canon(fa.X), []ssa.Value{x.Key, x.Value}})
+						}
+					}
+				}
+			})
+		}
+		var derived []derivedStore
+		for _, s := range stores {
+			for _, v := range s.val {
+				for g := range fieldDeps(v, T, s.base) {
+					if g != s.F {
+						derived = append(derived, derivedStore{s.f, s.in, s.F, g, s.base})
+					}
+				}
+			}
+		}
+		if !fixture {
+			r.Exists(rule, label+":field stores", token.NoPos, len(stores) >= 5, fmt.Sprintf("%d store(s) into fields of an existing %s examined, %d of them derived from another field", len(stores), label, len(derived)))
+		}
+		for i, d := range derived {
+			construct := fmt.Sprintf("%s:%s.%s derived from .%s #%d", FuncName(d.f), label, d.F.Name(), d.G.Name(), i+1)
+			// (a) every assignment of G is accompanied by an assignment of F
+			okA := true
+			var stale string
+			for _, s := range stores {
+				if s.F != d.G {
+					continue
+				}
+				with := false
+				for _, s2 := range stores {
+					if s2.f == s.f && s2.F == d.F && s2.base == s.base {
+						if dominates(s2.in, s.in) {
+							with = true
+						} else if all, _ := allPathsHit(s.f, s.in, func(x ssa.Instruction) bool { return x == s2.in }); all {
+							with = true
+						}
+					}
+				}
+				if !with {
+					okA = false
+					stale = FuncName(s.f)
+				}
+			}
+			// (b) keyed memo
+			okB := false
+			if !okA {
+				var keyF *types.Var
+				for _, s := range stores {
+					if s.f == d.f && s.F != d.F && s.F != d.G && len(s.val) == 1 && isLoadOfField(s.val[0], d.G) {
+						keyF = s.F
+					}
+				}
+				if keyF != nil {
+					okB = true
+					for _, f := range w.Funcs {
+						for _, ld := range loadsOfField(f, d.F) {
+							li, isI := ld.(ssa.Instruction)
+							if !isI {
+								continue
+							}
+							// a load that only feeds a nil test ("is the memo filled?") exposes no stale content
+							nilOnly := ld.Referrers() != nil && len(*ld.Referrers()) > 0
+							if nilOnly {
+								for _, ref := range *ld.Referrers() {
+									bo, isB := ref.(*ssa.BinOp)
+									if !isB || (bo.Op != token.EQL && bo.Op != token.NEQ) || !(isNilConst(bo.X) || isNilConst(bo.Y)) {
+										nilOnly = false
+									}
+								}
+							}
+							if nilOnly {
+								continue
+							}
+							paths, complete := enumPaths(f, li, 2000)
+							if !complete {
+								okB = false
+							}
+							for _, p := range paths {
+								good := false
+								for _, b := range p.blocks {
+									for _, x := range b.Instrs {
+										if x == d.in {
+											good = true
+										}
+									}
+								}
+								for _, dc := range p.decs {
+									if bo, ok := dc.Cond.(*ssa.BinOp); ok && (bo.Op == token.EQL || bo.Op == token.NEQ) {
+										kx := (isLoadOfField(bo.X, keyF) && isLoadOfField(bo.Y, d.G)) || (isLoadOfField(bo.Y, keyF) && isLoadOfField(bo.X, d.G))
+										if kx && dc.Truth == (bo.Op == token.EQL) {
+											good = true
+										}
+									}
+								}
+								if !good {
+									okB = false
+								}
+							}
+						}
+					}
+				}
+			}
+			// (c) F is itself only a key: a snapshot of G that is used in comparisons with the current G and nowhere else
+			okC := false
+			if !okA && !okB {
+				direct := false
+				for _, s := range stores {
+					if s.in == d.in && len(s.val) == 1 && isLoadOfField(s.val[0], d.G) {
+						direct = true
+					}
+				}
+				if direct {
+					okC = true
+					for _, f := range w.Funcs {
+						for _, ld := range loadsOfField(f, d.F) {
+							refs := ld.Referrers()
+							if refs == nil {
+								continue
+							}
+							for _, ref := range *refs {
+								bo, isB := ref.(*ssa.BinOp)
+								if !isB || (bo.Op != token.EQL && bo.Op != token.NEQ) || !(isLoadOfField(bo.X, d.G) || isLoadOfField(bo.Y, d.G)) {
+									okC = false
+								}
+							}
+						}
+					}
+				}
+			}
+			ok := okA || okB || okC
+			if !ok {
+				violations++
+			}
+			if fixture {
+				continue
+			}
+			detail := "the derived field is recomputed or invalidated wherever the field it was computed from is assigned"
+			if okB && !okA {
+				detail = "keyed memo: every use re-validates the key against the current value"
+			}
+			if okC {
+				detail = "key of a memo: a snapshot that is only ever compared with the current value"
+			}
+			if !ok {
+				detail = fmt.Sprintf("%s.%s is computed from %s.%s and kept, but %s assigns .%s without recomputing it: a builder re-used for another route (Route.ToURL calls Path(route.path).Build) substitutes the previous route's data", label, d.F.Name(), label, d.G.Name(), stale, d.G.Name())
+			}
+			r.Check(rule, construct, w.InstrPos(d.in), ok, detail)
+		}
+		return violations
+	}
+	bt := w.Named("rux", "BuildRequestURL")
+	check(bt, "BuildRequestURL", false)
+	// Route.ToURL hands the route's own pattern to the builder on every call
+	toURL := w.Fn("rux", "Route.ToURL")
+	pathSetter := w.Fn("rux", "BuildRequestURL.Path")
+	build := w.Fn("rux", "BuildRequestURL.Build")
+	pathF := w.Field("rux", "Route", "path")
+	okSet := len(callsToFn(toURL, build)) > 0
+	for _, bc := range callsToFn(toURL, build) {
+		recv := bc.Common().Args[0]
+		pc, isCall := recv.(*ssa.Call)
+		if !isCall || staticCallee(pc) != pathSetter || !flowsFrom(pc.Call.Args[1], func(x ssa.Value) bool { return isLoadOfField(x, pathF) }) {
+			okSet = false
+		}
+	}
+	r.Check(rule, "(*Route).ToURL:Path(route.path).Build", toURL.Pos(), okSet, "every Build in ToURL is applied to Path(<this route's pattern>): the builder's path is set anew for each URL")
+	// positive fixture
+	if ft := w.NamedOpt("rux", "zzVerifMemo"); ft != nil {
+		n := check(ft, "zzVerifMemo", true)
+		r.Exists(rule, "positive fixture (virtual type with a stale memo) is reported", token.NoPos, n >= 1, fmt.Sprintf("%d stale derived field(s) found in the fixture", n))
+	} else {
+		r.Undecided(rule, "positive fixture", token.NoPos, "the virtual fixture type zzVerifMemo is not part of the analysed program")
+	}
+}
+
+const memoFixture = `package rux
+
+import "strings"
+
+// zzVerifMemo exists only in the overlay of the C15 run: Build memoises data parsed
+// from path, Path assigns path without invalidating it. C15-MEMO must flag it on every run.
+type zzVerifMemo struct {
+	path string
+	vars []string
+}
+
+func (b *zzVerifMemo) Path(p string) *zzVerifMemo { b.path = p; return b }
+
+func (b *zzVerifMemo) Build() []string {
+	if b.vars == nil {
+		b.vars = strings.Fields(b.path)
+	}
+	return b.vars
+}
+`
